@@ -80,6 +80,28 @@ def step (_ : Unit) (l : Line) : Unit × String :=
     match l.int? "w", l.int? "k" with
     | some w, some k => out (guardUB (Gen.weekday_sub_assign_ub w k) (toString (Gen.weekday_sub_assign w k))) (toString (Spec.weekdayPlus w (-k)))
     | _, _ => bad
+  -- weekday-indexed dates: no generated model yet; the implementation is compared with the spec (and the spec with std)
+  | "ymw" =>
+    match l.int? "z" with
+    | some z =>
+      let t := Spec.civil z
+      let w := Spec.weekday z
+      let i : Int := ((t.d : Int) - 1) / 7 + 1
+      let r := s!"{t.y},{t.m},{w},{i},{b2s (Spec.ymwOk t.y t.m w i)},{Spec.ymwDays t.y t.m w i}"
+      out r r
+    | none => bad
+  | "ymw_days" =>
+    match l.int? "y", l.int? "m", l.int? "w", l.int? "i" with
+    | some y, some m, some w, some i =>
+      let r := s!"{Spec.ymwDays y m.toNat w i},{b2s (Spec.ymwOk y m.toNat w i)}"
+      out r r
+    | _, _, _, _ => bad
+  | "ymwl_days" =>
+    match l.int? "y", l.int? "m", l.int? "w" with
+    | some y, some m, some w =>
+      let r := s!"{Spec.ymwlDays y m.toNat w},{b2s (y != -32768 && 1 ≤ m && m ≤ 12 && 0 ≤ w && w ≤ 6)},{Spec.daysOf ⟨y, m.toNat, Spec.monthLength y m.toNat⟩}"
+      out r r
+    | _, _, _ => bad
   | "wd_diff" =>
     match l.int? "a", l.int? "b" with
     | some a, some b => out (guardUB (Gen.weekday_diff_ub a b) (toString (Gen.weekday_diff a b))) (toString ((a - b) % 7))
